@@ -82,6 +82,9 @@ type Case struct {
 	NativeInts bool `json:"native_ints,omitempty"`
 	// NativeIntKeys: like NativeInts, but only below these top-level keys of each doc (mixing int and float64 tables)
 	NativeIntKeys []string `json:"native_int_keys,omitempty"`
+	// TypedTables: build every non-empty array whose elements are all objects as []map[string]any (a Go-typed
+	// input, as a caller who fills the document from typed data would pass it) instead of []any
+	TypedTables bool `json:"typed_tables,omitempty"`
 }
 
 // ---------------------------------------------------------------- observation
